@@ -383,6 +383,9 @@ class PageTemplate(BaseTemplate):
             'restricted_namespace',
             'default_expression',
             'mode',
+            # (the document type decides on the boolean attributes in
+            # effect and on the conversion of line endings)
+            'content_type',
         ):
             v = getattr(self, attr)
             if isinstance(v, (set, frozenset, list, tuple)):
